@@ -1,7 +1,8 @@
 //! C31: UTxO effects follow the phase-2 validity flag (produced side) and the sorted input set.
 //! fn: pallas_traverse::MultiEraTx::{outputs,output_at,produces,produces_at,collateral_return,is_valid,inputs,inputs_sorted_set}
 //! fn: pallas_traverse::MultiEraInput::{lexicographical_key,hash,index}, MultiEraOutput::{from_babbage,from_conway,as_babbage,as_conway,value}, MultiEraValue::coin
-//! outside: MultiEraTx::consumes (de-duplicates through a HashSet: not executable under CBMC) -- only its two sources inputs()/collateral() and the switch is_valid() are covered; requires(); Byron and Alonzo-compatible txs (no collateral return: produces = outputs when valid, nothing otherwise -- same code path as here with collateral_return() = None)
+//! outside: MultiEraTx::consumes (de-duplicates through a HashSet: not executable under CBMC) -- only its source inputs() and the switch is_valid() are covered; requires(); Byron txs
+//! outside: produces()/produces_at() on Babbage and Conway txs, i.e. the "collateral return at index n" rule itself: both functions create and drop a temporary Vec<MultiEraOutput> *inside* the library (`self.outputs().len()`, `into_iter().enumerate().collect()`); for Babbage/Conway outputs CBMC does not resolve the niche-encoded Cow::Borrowed discriminant read back from the heap and unrolls the recursive drop glue of PlutusData/NativeScript/BTreeMap (measured: no verdict in 300 s for 0, 1 or 2 outputs, success concrete or symbolic, unwind 1..3). For these eras the ingredients are decided separately (is_valid, outputs, output_at, collateral_return); their composition in produces/produces_at is decided for Alonzo-compatible txs only, where there is no collateral return
 //! outside: more than 2 outputs / 3 inputs; inputs_sorted_set with hashes differing beyond the first byte (Hash<32> ordering is the derived array ordering)
 use crate::build::*;
 use pallas_codec::utils::{KeepRaw, Nullable, Set};
@@ -33,8 +34,8 @@ fn coin(o: &MultiEraOutput) -> u64 {
     c
 }
 
-/// the checks shared by both eras; `c` = coins of output 0, output 1, collateral return
-fn check_produced(mtx: &MultiEraTx, success: bool, has_ret: bool, c: [u64; 3]) {
+/// Babbage / Conway: the ingredients of produces(); `c` = coins of output 0, output 1, collateral return
+fn check_parts(mtx: &MultiEraTx, success: bool, has_ret: bool, c: [u64; 3]) {
     assert!(mtx.is_valid() == success, "is_valid is the success flag");
 
     let outs = mtx.outputs();
@@ -47,14 +48,41 @@ fn check_produced(mtx: &MultiEraTx, success: bool, has_ret: bool, c: [u64; 3]) {
         assert!(coin(r) == c[2], "collateral_return() is the body's collateral return");
     }
 
+    let idx: usize = kani::any();
+    let oa = mtx.output_at(idx);
+    if idx < 2 {
+        assert!(oa.is_some(), "output_at inside the list");
+        if let Some(o) = &oa {
+            assert!(coin(o) == c[idx], "output_at(i) is output i");
+        }
+    } else {
+        assert!(oa.is_none(), "output_at beyond the list");
+    }
+    kani::cover!(success && idx == 1, "valid, second output");
+    kani::cover!(!success && idx == 2, "invalid, index n");
+    kani::cover!(idx > 2, "index beyond n");
+
+    core::mem::forget(oa);
+    core::mem::forget(ret);
+    core::mem::forget(outs);
+}
+
+/// Alonzo-compatible: produces()/produces_at() under the validity flag; `c` = coins of output 0, 1
+fn check_produced(mtx: &MultiEraTx, success: bool, c: [u64; 3]) {
+    assert!(mtx.is_valid() == success, "is_valid is the success flag");
+
+    let outs = mtx.outputs();
+    assert!(outs.len() == 2, "outputs(): both outputs");
+    assert!(coin(&outs[0]) == c[0] && coin(&outs[1]) == c[1], "outputs() in body order");
+
+    let ret = mtx.collateral_return();
+    assert!(ret.is_none(), "no collateral return before Babbage");
+
     let prod = mtx.produces();
     if success {
         assert!(prod.len() == 2, "valid tx produces exactly its outputs");
         assert!(prod[0].0 == 0 && coin(&prod[0].1) == c[0], "valid tx: output 0 at index 0");
         assert!(prod[1].0 == 1 && coin(&prod[1].1) == c[1], "valid tx: output 1 at index 1");
-    } else if has_ret {
-        assert!(prod.len() == 1, "invalid tx produces only the collateral return");
-        assert!(prod[0].0 == 2 && coin(&prod[0].1) == c[2], "invalid tx: collateral return at index n");
     } else {
         assert!(prod.len() == 0, "invalid tx without collateral return produces nothing");
     }
@@ -71,17 +99,7 @@ fn check_produced(mtx: &MultiEraTx, success: bool, has_ret: bool, c: [u64; 3]) {
         assert!(oa.is_none(), "output_at beyond the list");
     }
     let pa = mtx.produces_at(idx);
-    let expected: Option<u64> = if success {
-        if idx < 2 {
-            Some(c[idx])
-        } else {
-            None
-        }
-    } else if has_ret && idx == 2 {
-        Some(c[2])
-    } else {
-        None
-    };
+    let expected: Option<u64> = if success && idx < 2 { Some(c[idx]) } else { None };
     assert!(pa.is_some() == expected.is_some(), "produces_at(i) exists iff (i, _) is in produces()");
     if let (Some(o), Some(e)) = (&pa, expected) {
         assert!(coin(o) == e, "produces_at(i) is the output paired with i in produces()");
@@ -104,7 +122,7 @@ fn coins() -> [u64; 3] {
     c
 }
 
-macro_rules! produced_babbage {
+macro_rules! parts_babbage {
     ($name:ident, $has_ret:expr) => {
         #[kani::proof]
         #[kani::unwind(4)]
@@ -124,13 +142,13 @@ macro_rules! produced_babbage {
                 auxiliary_data: Nullable::Null,
             };
             let mtx = MultiEraTx::from_babbage(&tx);
-            check_produced(&mtx, success, $has_ret, c);
+            check_parts(&mtx, success, $has_ret, c);
             core::mem::forget(mtx);
             core::mem::forget(tx);
         }
     };
 }
-macro_rules! produced_conway {
+macro_rules! parts_conway {
     ($name:ident, $has_ret:expr) => {
         #[kani::proof]
         #[kani::unwind(4)]
@@ -150,17 +168,42 @@ macro_rules! produced_conway {
                 auxiliary_data: Nullable::Null,
             };
             let mtx = MultiEraTx::from_conway(&tx);
-            check_produced(&mtx, success, $has_ret, c);
+            check_parts(&mtx, success, $has_ret, c);
             core::mem::forget(mtx);
             core::mem::forget(tx);
         }
     };
 }
-// bound: built tx with 2 outputs (coins symbolic, pairwise distinct), collateral return present/absent per harness (coin symbolic), success flag symbolic, lookup index symbolic over all usize; unwind 4
-produced_babbage!(c31_q_babbage_with_return, true);
-produced_babbage!(c31_q_babbage_no_return, false);
-produced_conway!(c31_q_conway_with_return, true);
-produced_conway!(c31_q_conway_no_return, false);
+// bound: built tx with 2 outputs (coins symbolic, pairwise distinct), collateral return present/absent per harness (coin symbolic), success flag symbolic, lookup index symbolic over all usize; is_valid/outputs/output_at/collateral_return only; unwind 4
+parts_babbage!(c31_q_babbage_parts_with_return, true);
+parts_babbage!(c31_q_babbage_parts_no_return, false);
+parts_conway!(c31_q_conway_parts_with_return, true);
+parts_conway!(c31_q_conway_parts_no_return, false);
+
+/// bound: built Alonzo-compatible tx (era tag Mary or Alonzo) with 2 outputs (coins symbolic, distinct), success flag symbolic, lookup index symbolic over all usize; produces/produces_at/outputs/output_at/collateral_return; unwind 4
+#[kani::proof]
+#[kani::unwind(4)]
+#[kani::stub(std::fmt::format, crate::stubs::fmt_format_stub)]
+fn c31_q_alonzo_produced() {
+    let c = coins();
+    let success: bool = kani::any();
+    let mut body = alonzo_body(0);
+    body.outputs = vec![
+        alonzo::TransactionOutput { address: bytes0(), amount: alonzo::Value::Coin(c[0]), datum_hash: None },
+        alonzo::TransactionOutput { address: bytes0(), amount: alonzo::Value::Coin(c[1]), datum_hash: None },
+    ];
+    let tx = alonzo::Tx {
+        transaction_body: KeepRaw::from(body),
+        transaction_witness_set: KeepRaw::from(alonzo_wits()),
+        success,
+        auxiliary_data: Nullable::Null,
+    };
+    let era = if kani::any() { pallas_traverse::Era::Mary } else { pallas_traverse::Era::Alonzo };
+    let mtx = MultiEraTx::from_alonzo_compatible(&tx, era);
+    check_produced(&mtx, success, c);
+    core::mem::forget(mtx);
+    core::mem::forget(tx);
+}
 
 // ---- inputs_sorted_set
 
@@ -266,15 +309,18 @@ fn c31_q_sorted_set_conway() {
 #[kani::stub(std::fmt::format, crate::stubs::fmt_format_stub)]
 fn c31_v_twin() {
     let c = coins();
-    let mut body = babbage_body(0);
-    body.outputs = vec![KeepRaw::from(bab_out(c[0])), KeepRaw::from(bab_out(c[1]))];
-    let tx = babbage::Tx {
+    let mut body = alonzo_body(0);
+    body.outputs = vec![
+        alonzo::TransactionOutput { address: bytes0(), amount: alonzo::Value::Coin(c[0]), datum_hash: None },
+        alonzo::TransactionOutput { address: bytes0(), amount: alonzo::Value::Coin(c[1]), datum_hash: None },
+    ];
+    let tx = alonzo::Tx {
         transaction_body: KeepRaw::from(body),
-        transaction_witness_set: KeepRaw::from(babbage_wits()),
+        transaction_witness_set: KeepRaw::from(alonzo_wits()),
         success: kani::any(),
         auxiliary_data: Nullable::Null,
     };
-    let mtx = MultiEraTx::from_babbage(&tx);
+    let mtx = MultiEraTx::from_alonzo_compatible(&tx, pallas_traverse::Era::Alonzo);
     let prod = mtx.produces();
     let n = prod.len();
     core::mem::forget(prod);
